@@ -23,6 +23,9 @@ def leaves(bounds):
     return out
 
 
+RAISED = []
+
+
 def reachable(seed, tier):
     rng = Rng(seed)
     nb = 7 if tier == "quick" else 12
@@ -34,7 +37,10 @@ def reachable(seed, tier):
     for _ in range(n1):
         a, b = rng.choice(pool), rng.choice(pool)
         k = rng.randrange(3)
-        pool.append(a & b if k == 0 else a | b if k == 1 else ~a)
+        try:
+            pool.append(a & b if k == 0 else a | b if k == 1 else ~a)
+        except Exception as e:  # noqa: BLE001  (an operator that raises on reachable operands is itself a failure, reported by run())
+            RAISED.append({"op": "&|~"[k], "a": O.describe(a), "b": O.describe(b), "error": repr(e)})
     return pool, bounds
 
 
@@ -50,6 +56,8 @@ def run(tier="quick", seed=0, only=None):
     def dv(s):
         return tuple(O.den(s, v) for v in probe)
 
+    for r in RAISED:
+        fail(f"C01.{ {'&': 'and', '|': 'or', '~': 'invert'}[r['op']] }.raises", {"a": r["a"], "b": r["b"]}, r["error"], "no exception")
     for s in pool:
         if not O.wf(s):
             fail("C05.wf-reachable", {"s": O.describe(s)}, "not canonical", "canonical shape")
@@ -103,10 +111,13 @@ def run(tier="quick", seed=0, only=None):
             if not (x == y) or not (y == x):
                 fail(f"C14.{lname}", {"a": O.describe(a), "b": O.describe(b), "c": O.describe(c)}, [O.describe(x), O.describe(y)], "equal objects")
         evals += 2
-        if not (a & ~a).is_empty():
-            fail("C14.excluded-middle-and", {"a": O.describe(a)}, O.describe(a & ~a), "empty")
-        if not (a | ~a).is_any():
-            fail("C14.excluded-middle-or", {"a": O.describe(a)}, O.describe(a | ~a), "universal")
+        try:
+            if not (a & ~a).is_empty():
+                fail("C14.excluded-middle-and", {"a": O.describe(a)}, O.describe(a & ~a), "empty")
+            if not (a | ~a).is_any():
+                fail("C14.excluded-middle-or", {"a": O.describe(a)}, O.describe(a | ~a), "universal")
+        except Exception as e:  # noqa: BLE001
+            fail("C14.excluded-middle.raises", {"a": O.describe(a)}, repr(e), "no exception")
         # C05: equal objects admit the same versions; structurally identical canonical results are equal
         evals += 1
         if (a == b) and da != db:
